@@ -41,7 +41,9 @@ func VerifC07Middleware() {
 	}
 	c07mid.served, c07mid.status, c07mid.challenge = 0, 0, false
 	h := NewHTTPAuthMiddleware(cfgUser, cfgPass).Middleware(http.HandlerFunc(func(w http.ResponseWriter, r *http.Request) { c07mid.served++ }))
-	h.ServeHTTP(&c07midRW{hdr: http.Header{}}, &http.Request{Header: http.Header{}})
+	// whatever the request looks like otherwise: any method, any path
+	method := []string{"GET", "POST", "PUT", "DELETE", "OPTIONS", "HEAD", "PATCH", "CONNECT", ""}[zzverif.Choice("method", 9)]
+	h.ServeHTTP(&c07midRW{hdr: http.Header{}}, &http.Request{Method: method, Header: http.Header{}, RequestURI: []string{"/", "/metrics", "/api/reload", "*"}[zzverif.Choice("target", 4)]})
 	open := cfgUser == "" && cfgPass == ""
 	exact := zzverif.And(c07mid.ok, zzverif.And(zzverif.StrEq(c07mid.user, cfgUser), zzverif.StrEq(c07mid.pass, cfgPass)))
 	if c07mid.served == 1 {
